@@ -508,7 +508,7 @@ theorem spfile_mem_members {hash : JVal → String} {E : List (Job × Comps)} (G
   unfold exportBlock
   exact List.mem_map.mpr ⟨([fnSp], .sp v), lookupFile_mem hv, rfl⟩
 
-theorem schemaFn_none (A : List (Comps × Content)) : schemaFn A .none = readSp A := by
+theorem schemaFn_none (hash : JVal → String) (A : List (Comps × Content)) : schemaFn hash A .none = readSp A := by
   funext d
   rfl
 
